@@ -102,7 +102,9 @@ XercesDOMWrapperParsedSource::getDocument() const
 XalanParsedSourceHelper*
 XercesDOMWrapperParsedSource::createHelper(MemoryManager& theManager) const
 {
-    return XercesDOMParsedSourceHelper::create(theManager);
+    // The helper's DOM support object needs to find the source document,
+    // for unparsed-entity-uri().
+    return XercesDOMParsedSourceHelper::create(theManager, &m_parserLiaison);
 }
 
 
